@@ -1,4 +1,14 @@
-"""C17 — linearity and monotonicity analysis is sound.
+r"""C17 — linearity and monotonicity analysis is sound.
+
+P (fold schema with TWO interpretations, DESIGN.md C17): fix one fluent expression f and two interpretations I, I' that agree on
+every parameter and every fluent expression except f, with I(f) <= I'(f).  For every numeric operator kind the handler the real
+LinearChecker dispatches it to is executed symbolically from /repo's source against the local obligation
+   (every child j: linear_j => value of child j is monotone in f as its (pos_j, neg_j) say)
+   =>  linear => ( f only in pos => value(e) <= value'(e) ;  f only in neg => value(e) >= value'(e) ;  f in neither => equal )
+PLUS and TIMES for every arity (loop invariants over a symbolic list of child results; nonlinear real arithmetic for the sign
+bookkeeping of walk_times), MINUS, DIV, fluent leaves, constants and parameters.  The non-linearity clause of the statement is
+proved too: a product with two fluent-dependent factors / a quotient whose divisor has fluents returns linear = False.
+The signs of fluent-free factors come from TypeChecker.get_type, assumed sound for both interpretations (that is C15).
 
 B: random numeric expressions over bounded fluents and a parameter with a negative range: when the real LinearChecker
 reports `linear` and lists a fluent only as positive (negative), the value is non-decreasing (non-increasing) in that
@@ -8,8 +18,7 @@ and quotients with a fluent-dependent divisor are never reported linear.
 import warnings
 from fractions import Fraction
 
-UNITS = []
-USES_THEORY = False
+USES_THEORY = True
 
 
 def bounded(tier, seed):
@@ -114,5 +123,231 @@ def bounded(tier, seed):
                     f"expression reported linear", "samples": samples, "bound": f"{n} expressions"}
 
 
-LEVEL = "exploration"
+
+
+# ======================================================================================================= proved layer
+import z3
+from pyvc.values import Ref, Seq, Set, Tup, Bool as PBool, SBool, SReal, SUnion, SSeq, SSet, Rec, CList, Loc, fresh_name, zbool, zint, Unsupported
+from pyvc.verify import Unit
+from pyvc.engine import LoopSpec
+from pyvc import builtins as B
+from . import theory as T
+from .theory import OK, evn, args_arr, args_len, ssum, sprod, node_type, OKT
+import unified_planning.model.types as _types
+import unified_planning.model.walkers.linear_checker as _lc
+from unified_planning.model.walkers.generic import nt_to_fun
+
+QN = "unified_planning.model.walkers.linear_checker.LinearChecker."
+_F = T.FNode.z3sort()
+_ARR = z3.ArraySort(z3.IntSort(), _F)
+evn2 = z3.Function("evn2", _F, z3.RealSort())                  # the second interpretation
+ssum2 = z3.Function("ssum2", _ARR, z3.IntSort(), z3.RealSort())
+sprod2 = z3.Function("sprod2", _ARR, z3.IntSort(), z3.RealSort())
+FOCUS = z3.Const("focus_fluent_expression", _F)                # the fluent expression f the two interpretations differ on
+
+Type17 = Ref("Type17", _types.Type)
+Type17.isinstance_hook = lambda e, st, v, clss: True           # `assert isinstance(t, _IntType) or isinstance(t, _RealType)`: numeric children (C15)
+_TS = Type17.z3sort()
+lbnone, ubnone = z3.Function("Type17.lb.isnone", _TS, z3.BoolSort()), z3.Function("Type17.ub.isnone", _TS, z3.BoolSort())
+lbR, ubR = z3.Function("Type17.lb", _TS, z3.RealSort()), z3.Function("Type17.ub", _TS, z3.RealSort())
+Type17.attrs["lower_bound"] = lambda eng, st, t: SUnion([(lbnone(t.z), None), (z3.Not(lbnone(t.z)), SReal(lbR(t.z)))])
+Type17.attrs["upper_bound"] = lambda eng, st, t: SUnion([(ubnone(t.z), None), (z3.Not(ubnone(t.z)), SReal(ubR(t.z)))])
+TC17 = Ref("TypeChecker17")
+Env17 = Ref("Environment17", fields={"type_checker": TC17})
+_type_of = z3.Function("TypeChecker.get_type", _F, _TS)
+
+
+def _get_type(eng, st, selfv, args, kw):
+    """callee contract = C15: the inferred interval contains the value of the expression under every interpretation within the
+    declared types (here: under both I and I')"""
+    (x,) = args
+    t = _type_of(x.z)
+    for ev_ in (evn, evn2):
+        st.assume(z3.Or(lbnone(t), lbR(t) <= ev_(x.z)), z3.Or(ubnone(t), ev_(x.z) <= ubR(t)))
+    yield st, Type17.wrap(t)
+
+
+TC17.methods["get_type"] = _get_type
+TRIPLE = Tup(PBool, Set(T.FNode), Set(T.FNode))
+
+
+def sem2_axioms():
+    """defining equations of the numeric operators for the second interpretation (same text as theory.sem_eq)"""
+    e = z3.Const("e!sem2", _F)
+    a, n = z3.Const("a!ax2", _ARR), z3.Int("n!ax2")
+    arr, ln = args_arr(e), args_len(e)
+    a0, a1 = z3.Select(arr, 0), z3.Select(arr, 1)
+    C = OKT.consts
+    pi = B._uf("FNode.payload.INT_CONSTANT", _F, z3.IntSort())
+    pr_ = B._uf("FNode.payload.REAL_CONSTANT", _F, z3.RealSort())
+    return [z3.ForAll([e], z3.Implies(node_type(e) == C[OK.PLUS], evn2(e) == ssum2(arr, ln)), patterns=[node_type(e)]),
+            z3.ForAll([e], z3.Implies(node_type(e) == C[OK.TIMES], evn2(e) == sprod2(arr, ln)), patterns=[node_type(e)]),
+            z3.ForAll([e], z3.Implies(node_type(e) == C[OK.MINUS], evn2(e) == evn2(a0) - evn2(a1)), patterns=[node_type(e)]),
+            # quotient in multiplicative form (q * d == n for d != 0): the same real number, friendlier to the nonlinear solver
+            z3.ForAll([e], z3.Implies(z3.And(node_type(e) == C[OK.DIV], evn2(a1) != 0), evn2(e) * evn2(a1) == evn2(a0)), patterns=[node_type(e)]),
+            z3.ForAll([e], z3.Implies(z3.And(node_type(e) == C[OK.DIV], evn(a1) != 0), evn(e) * evn(a1) == evn(a0)), patterns=[node_type(e)]),
+            z3.ForAll([e], z3.Implies(node_type(e) == C[OK.INT_CONSTANT], evn2(e) == z3.ToReal(pi(e))), patterns=[node_type(e)]),
+            z3.ForAll([e], z3.Implies(node_type(e) == C[OK.REAL_CONSTANT], evn2(e) == pr_(e)), patterns=[node_type(e)]),
+            z3.ForAll([a], ssum2(a, 0) == 0),
+            z3.ForAll([a, n], z3.Implies(n > 0, ssum2(a, n) == ssum2(a, n - 1) + evn2(z3.Select(a, n - 1))), patterns=[ssum2(a, n)]),
+            z3.ForAll([a], sprod2(a, 0) == 1),
+            z3.ForAll([a, n], z3.Implies(n > 0, sprod2(a, n) == sprod2(a, n - 1) * evn2(z3.Select(a, n - 1))), patterns=[sprod2(a, n)])]
+
+
+def mono(lin, inpos, inneg, v, v2):
+    """the fold property for one node: (linear, f in pos, f in neg) against the two values"""
+    return z3.Implies(lin, z3.And(z3.Implies(z3.And(inpos, z3.Not(inneg)), v <= v2),
+                                  z3.Implies(z3.And(inneg, z3.Not(inpos)), v >= v2),
+                                  z3.Implies(z3.And(z3.Not(inpos), z3.Not(inneg)), v == v2)))
+
+
+def mem(eng, st, setv):
+    """z3 Bool: FOCUS in the (possibly still concrete / empty) python set value"""
+    c = eng.deref(st, setv)
+    if isinstance(c, SSet):
+        return z3.Select(c.has, FOCUS)
+    if isinstance(c, B.PendingEmpty):
+        return z3.BoolVal(False)
+    if isinstance(c, B.CSet):
+        items = list(c.items)
+        return z3.Or([x.z == FOCUS for x in items]) if items else z3.BoolVal(False)
+    raise Unsupported(f"set value {c!r}")
+
+
+def triple_parts(z):
+    """(b, f in spf, f in snf, spf nonempty or snf nonempty) of a z3 triple"""
+    TRIPLE.z3sort()
+    b, sp, sn = (acc(z) for acc in TRIPLE._acc)
+    empty = z3.K(_F, z3.BoolVal(False))
+    return b, z3.Select(sp, FOCUS), z3.Select(sn, FOCUS), z3.Or(sp != empty, sn != empty)
+
+
+class LinHandler(Unit):
+    prop = "C17"
+
+    def __init__(self, kind):
+        self.kind = kind
+        self.fn = getattr(_lc.LinearChecker, nt_to_fun(kind))
+        self.name = f"LinearChecker[{kind.name}] -> {self.fn.__name__}"
+        self.doc = "children monotone in f as reported  =>  the node is monotone in f as reported (two interpretations differing on f only)"
+
+    def target(self):
+        return self.fn
+
+    def configure(self, eng):
+        kinds = (OK.PLUS, OK.TIMES, OK.MINUS, OK.INT_CONSTANT, OK.REAL_CONSTANT)
+        eng.axioms += T.semantic_axioms(kinds) + T.fold_axioms() + sem2_axioms()
+        fname = self.fn.__name__
+        fold, fold2 = (ssum, ssum2) if self.kind == OK.PLUS else (sprod, sprod2)
+
+        def prefix(L):
+            seq, i = L._seq.seq if isinstance(L._seq, B.EnumSeq) else L._seq, zint(L._i)
+            j = z3.Int(fresh_name("j"))
+
+            def ex(sel):
+                return z3.Exists([j], z3.And(0 <= j, j < i, sel(triple_parts(z3.Select(seq.arr, j)))))
+
+            def al(sel):
+                return z3.ForAll([j], z3.Implies(z3.And(0 <= j, j < i), sel(triple_parts(z3.Select(seq.arr, j)))))
+            return i, ex, al
+        if fname == "walk_default" and self.kind == OK.PLUS:
+            def inv(L):
+                i, ex, al = prefix(L)
+                e = L.expression
+                lin = zbool(L.is_linear)
+                inpos, inneg = mem(L._eng, L.st, L.positive_fluents), mem(L._eng, L.st, L.negative_fluents)
+                return [("is_linear == every scanned child is linear", lin == al(lambda p: p[0])),
+                        ("f in positive_fluents iff in some scanned child's positive set", inpos == ex(lambda p: p[1])),
+                        ("f in negative_fluents iff in some scanned child's negative set", inneg == ex(lambda p: p[2])),
+                        ("the prefix sum is monotone in f as recorded", mono(lin, inpos, inneg, fold(args_arr(e.z), i), fold2(args_arr(e.z), i)))]
+            eng.loops[(QN + fname, 0)] = LoopSpec(inv, modifies=["b", "spf", "snf", "is_linear", "positive_fluents", "negative_fluents"],
+                                                  types={"positive_fluents": Set(T.FNode), "negative_fluents": Set(T.FNode), "is_linear": PBool})
+        if fname == "walk_times":
+            def inv(L):
+                i, ex, al = prefix(L)
+                e = L.expression
+                lin, found = zbool(L.is_linear), zbool(L.arg_with_fluents_found)
+                pos_, unk = zbool(L.positivity), zbool(L.positivity_unknown)
+                inpos, inneg = mem(L._eng, L.st, L.positive_fluents), mem(L._eng, L.st, L.negative_fluents)
+                P, P2 = fold(args_arr(e.z), i), fold2(args_arr(e.z), i)
+                seq = L._seq.seq
+                j, k = z3.Int(fresh_name("j")), z3.Int(fresh_name("k"))
+                two = z3.Exists([j, k], z3.And(0 <= j, j < k, k < i, triple_parts(z3.Select(seq.arr, j))[3], triple_parts(z3.Select(seq.arr, k))[3]))
+                return [("a scanned child with fluents => found", z3.Implies(ex(lambda p: p[3]), found)),
+                        ("two scanned children with fluents => not linear", z3.Implies(two, z3.Not(lin))),
+                        ("no fluent factor yet => f in neither set", z3.Implies(z3.Not(found), z3.And(z3.Not(inpos), z3.Not(inneg)))),
+                        ("f in neither set => equal prefix products", z3.Implies(z3.And(lin, z3.Not(inpos), z3.Not(inneg)), P == P2)),
+                        ("before the fluent factor: equal prefix products of the recorded sign",
+                         z3.Implies(z3.And(lin, z3.Not(unk), z3.Not(found)), z3.And(P == P2, z3.If(pos_, P > 0, P < 0)))),
+                        ("after the fluent factor: monotone in f, direction flipped by a negative sign",
+                         z3.Implies(z3.And(lin, z3.Not(unk), found),
+                                    z3.If(pos_, mono(z3.BoolVal(True), inpos, inneg, P, P2), mono(z3.BoolVal(True), inneg, inpos, P, P2))))]
+            eng.loops[(QN + fname, 0)] = LoopSpec(inv, modifies=["i", "b", "spf", "snf", "t", "is_linear", "arg_with_fluents_found", "positivity",
+                                                                 "positivity_unknown", "positive_fluents", "negative_fluents"],
+                                                  types={"positive_fluents": Set(T.FNode), "negative_fluents": Set(T.FNode), "is_linear": PBool,
+                                                         "arg_with_fluents_found": PBool, "positivity": PBool, "positivity_unknown": PBool})
+
+    def setup(self, eng, st):
+        w = st.alloc(Rec(_lc.LinearChecker, {"_env": Env17.fresh("env")}), "LinearChecker")
+        e = T.FNode.fresh("expression")
+        if self.kind == OK.DIV:
+            st.assume(node_type(e.z) == OKT.consts[OK.DIV], args_len(e.z) == 2)
+        else:
+            T.assume_node(eng, st, e.z, self.kind)
+        j = z3.Int(fresh_name("j"))
+        # the two interpretations: agree on every fluent expression other than f, and f does not decrease
+        g = z3.Const("g!17", _F)
+        st.assume(evn(FOCUS) <= evn2(FOCUS), node_type(FOCUS) == OKT.consts[OK.FLUENT_EXP])
+        st.assume(z3.ForAll([g], z3.Implies(z3.And(z3.Or(node_type(g) == OKT.consts[OK.FLUENT_EXP], node_type(g) == OKT.consts[OK.PARAM_EXP],
+                                                         node_type(g) == OKT.consts[OK.VARIABLE_EXP]), g != FOCUS),
+                                            evn(g) == evn2(g)), patterns=[evn2(g)]))
+
+        def hyp(tz, child):
+            b, ip, in_, _ = triple_parts(tz)
+            return mono(b, ip, in_, evn(child), evn2(child))
+        if self.kind in (OK.MINUS, OK.DIV):
+            ts = [TRIPLE.fresh("r0"), TRIPLE.fresh("r1")]
+            for k, t in enumerate(ts):
+                st.assume(hyp(TRIPLE.pack(t), z3.Select(args_arr(e.z), k)))
+            if self.kind == OK.DIV:
+                st.assume(evn(z3.Select(args_arr(e.z), 1)) != 0, evn2(z3.Select(args_arr(e.z), 1)) != 0)
+            args = st.alloc(CList(ts), "list")
+            ctx = dict(e=e, ts=ts)
+        else:
+            seq = eng.fresh_of(st, Seq(TRIPLE), "args")
+            if self.kind in (OK.PLUS, OK.TIMES):
+                st.assume(seq.n == args_len(e.z))
+                st.assume(z3.ForAll([j], z3.Implies(z3.And(0 <= j, j < seq.n), hyp(z3.Select(seq.arr, j), z3.Select(args_arr(e.z), j))),
+                                    patterns=[z3.Select(seq.arr, j)]))
+            elif self.kind != OK.FLUENT_EXP:
+                st.assume(seq.n == 0)
+            args = st.alloc(seq, "list")
+            ctx = dict(e=e, seq=seq)
+        return [w, e, args], {}, ctx
+
+    def post(self, eng, ctx, st, out):
+        if out[0] != "return":
+            return
+        e = ctx["e"]
+        r = eng.deref(st, out[1])
+        if not isinstance(r, tuple) or len(r) != 3:
+            raise Unsupported(f"result {r!r}")
+        lin = zbool(eng.as_bool_value(st, r[0]))
+        inpos, inneg = mem(eng, st, r[1]), mem(eng, st, r[2])
+        st.oblige("the node's value is monotone in f as reported", mono(lin, inpos, inneg, evn(e.z), evn2(e.z)))
+        if self.kind == OK.TIMES:
+            seq = ctx["seq"]
+            j, k = z3.Int(fresh_name("j")), z3.Int(fresh_name("k"))
+            two = z3.Exists([j, k], z3.And(0 <= j, j < k, k < seq.n, triple_parts(z3.Select(seq.arr, j))[3], triple_parts(z3.Select(seq.arr, k))[3]))
+            st.oblige("two fluent-dependent factors are never reported linear", z3.Implies(two, z3.Not(lin)))
+        if self.kind == OK.DIV:
+            st.oblige("a fluent-dependent divisor is never reported linear", z3.Implies(triple_parts(TRIPLE.pack(ctx["ts"][1]))[3], z3.Not(lin)))
+
+
+LIN_KINDS = [OK.PLUS, OK.MINUS, OK.TIMES, OK.DIV, OK.FLUENT_EXP, OK.INT_CONSTANT, OK.REAL_CONSTANT, OK.PARAM_EXP]
+UNITS = [LinHandler(k) for k in LIN_KINDS]
+LEVEL = "other"
 EXPLANATION = __doc__
+TRUSTED = ["TypeChecker.get_type is sound for both interpretations (C15)", "fluent arguments contain no fluents (the statement's grammar): the identity of a "
+           "fluent expression does not depend on the interpretation", "DagWalker.walk computes the fold of the handlers (C14)",
+           "get_fluents simplifies first: the Simplifier preserves the value (C11)"]
